@@ -7,6 +7,7 @@
 -/
 import PyTealV.Comp.Gen
 import PyTealV.Models.Spill
+import PyTealV.Models.WideRatio
 namespace PyTealV.Comp
 open PyTealV PyTealV.Avm PyTealV.Src PyTealV.Models.Spill
 
@@ -28,6 +29,13 @@ structure RCfg where
   deriving Repr, Inhabited
 
 def subLabel (f : Nat) : String := "@" ++ toString f
+
+/-- the op items of the WideRatio model as instructions (factor items never occur in these lists) -/
+def wideInstrs (items : List Models.WideRatio.Item) : List Instr :=
+  items.filterMap (fun it => match it with
+    | .op o is => some (.prim o is)
+    | .int n => some (.pushInt n)
+    | .fac _ _ => none)
 
 def RCfg.base (c : RCfg) : GenCfg := { version := c.version, inSub := c.inSub, markIndex := c.markIndex }
 
@@ -168,12 +176,40 @@ mutual
          let after := if spill then spillAfter cfg.localSlots ce.nArgs ce.hasRet cover else []
          let cb ← opBlock (before ++ [.callsub (subLabel f)] ++ after) k
          genRArgs cfg args cb L)
-    | .wideRatio _ _, _, _ => throw "unmodelled: WideRatio"
+    | .wideRatio ns ds, k, L =>
+      -- `Models.WideRatio.wideRatio?`: constructor checks, version check, then
+      -- multiplyFactors(numerators) ++ multiplyFactors(denominators) ++ combine
+      if ns.isEmpty || ds.isEmpty then throw "TealInternalError: At least 1 factor must be present in the numerator and denominator"
+      else if ns.length == 1 && ds.length == 1 then throw "TealInternalError: There is only a single factor in the numerator and denominator. Use basic division instead."
+      else if cfg.version < Models.WideRatio.minVersion then throw "TealCompileError: WideRatio requires program version 5 or higher"
+      else do
+        let cb ← opBlock (wideInstrs Models.WideRatio.combine) k
+        let dstart ← genRWideTop cfg ds cb L
+        genRWideTop cfg ns dstart L
     | .note none, k, _ => opBlock [] k
     | .note (some e), k, L => genR cfg e k L
     | .nonce b e, k, L => do
       let es ← genR cfg e k L
       opBlock [.pushBytes b, .prim "pop" []] es
+
+  /-- `multiplyFactors`: [f0] ↦ int 0; f0   |   f0 f1 rest ↦ f0; f1; mulw; (f; mulStep)* -/
+  def genRWideTop (cfg : RCfg) : List Expr → Nat → Option Loop → GenM Nat
+    | [], _, _ => throw "TealInternalError: Received 0 factors"
+    | [e0], k, L => do
+      let b ← genR cfg e0 k L
+      opBlock [.pushInt 0] b
+    | e0 :: e1 :: rest, k, L => do
+      let r ← genRWideRest cfg rest k L
+      let mb ← opBlock [.prim "mulw" []] r
+      let b1 ← genR cfg e1 mb L
+      genR cfg e0 b1 L
+
+  def genRWideRest (cfg : RCfg) : List Expr → Nat → Option Loop → GenM Nat
+    | [], k, _ => pure k
+    | e :: rest, k, L => do
+      let k' ← genRWideRest cfg rest k L
+      let sb ← opBlock (wideInstrs Models.WideRatio.mulStep) k'
+      genR cfg e sb L
 
   def genRArgs (cfg : RCfg) : List Expr → Nat → Option Loop → GenM Nat
     | [], k, _ => pure k
